@@ -1,6 +1,9 @@
 package main
 
 import (
+	"path/filepath"
+	"os"
+	"go/constant"
 	"fmt"
 	"go/ast"
 	"go/token"
@@ -38,6 +41,8 @@ func runC13(p *Program, r *Report) {
 	ruleR134(p, r)
 	r.Rule("R13.5", "E4", 20, "an optional clause is printed whenever it is present: in every Format method, a test 'node.F != nil' (or a non-empty test of F) that guards the printing of child F stands alone - it is not and-ed with another condition, so no other state of the node can make a present clause disappear from the re-serialised statement")
 	ruleR135(p, r, a)
+	r.Rule("R13.6", "E4", 3, "nothing is put between quotes unescaped: in the statement printer (Format methods of package sqlparser) no Myprintf verb stands directly inside quote characters unless its operand is the output of the escaping encoder or digits the tokenizer validated (frozen table), and the parser's actions build no quoted text by concatenating quote characters around token bytes outside schema statements; text that holds a quote would otherwise end the literal early and change the statement")
+	ruleR136(p, r)
 }
 
 func ruleR131(p *Program, r *Report, a *sqlAST) {
@@ -534,4 +539,142 @@ func ruleR135(p *Program, r *Report, a *sqlAST) {
 
 func init() {
 	mut("C13", "ESCAPE printed only for some operators", "sqlparser/ast_methods.go", "	if node.Escape != nil {\n		buf.Myprintf(\" escape %v\", node.Escape)", "	if node.Escape != nil && node.Operator != ILikeStr {\n		buf.Myprintf(\" escape %v\", node.Escape)", "R13.5", "Escape")
+}
+
+// ---- R13.6
+var r136Confirmed = map[string]string{
+	"(*SQLVal).Format|X'%s'": "HexVal: the tokenizer accepts only hexadecimal digits between the quotes of X'..'",
+	"(*SQLVal).Format|B'%s'": "BitVal: the tokenizer accepts only 0 and 1 between the quotes of B'..'",
+	"(*SQLVal).Format|E'%s'": "PgEscapeString: the operand is sqltypes.EncodeBytesSQLWithoutQuotes(node.Val), the escaping encoder (decided by R13.4)",
+}
+
+var r136ConfirmedConcat = map[string]string{
+	"enum_values": "enum('a','b') values of a column type: CREATE/ALTER TABLE only, a schema statement that Acra never rewrites and re-serialises",
+}
+
+func ruleR136(p *Program, r *Report) {
+	pk := p.Pkg("sqlparser")
+	if pk == nil {
+		r.Anchor("R13.6", "package sqlparser")
+		return
+	}
+	n := 0
+	for _, f := range pk.Syntax {
+		fname := filepath.Base(pk.Fset.Position(f.Pos()).Filename)
+		if strings.HasSuffix(fname, "_test.go") {
+			continue
+		}
+		for _, d := range f.Decls {
+			fd, ok := d.(*ast.FuncDecl)
+			if !ok || fd.Body == nil {
+				continue
+			}
+			owner := fd.Name.Name
+			if fd.Recv != nil && len(fd.Recv.List) == 1 {
+				owner = "(" + types.ExprString(fd.Recv.List[0].Type) + ")." + fd.Name.Name
+			}
+			ast.Inspect(fd.Body, func(nd ast.Node) bool {
+				switch x := nd.(type) {
+				case *ast.CallExpr:
+					sel, ok := x.Fun.(*ast.SelectorExpr)
+					if !ok || sel.Sel.Name != "Myprintf" || len(x.Args) == 0 {
+						return true
+					}
+					tv, ok := pk.TypesInfo.Types[x.Args[0]]
+					if !ok || tv.Value == nil || tv.Value.Kind() != constant.String {
+						return true
+					}
+					format := constant.StringVal(tv.Value)
+					for i := 0; i+1 < len(format); i++ {
+						if format[i] != '%' {
+							continue
+						}
+						if format[i+1] == '%' {
+							i++
+							continue
+						}
+						before := i > 0 && (format[i-1] == '\'' || format[i-1] == '"')
+						after := i+2 < len(format) && (format[i+2] == '\'' || format[i+2] == '"')
+						if !(before && after) {
+							continue
+						}
+						n++
+						lo := i - 1
+						if lo > 0 {
+							lo--
+						}
+						frag := format[lo : i+3]
+						key := owner + "|" + frag
+						pos := p.Pos(x.Pos())
+						if why, ok := r136Confirmed[key]; ok {
+							r.Confirmed("R13.6", owner, "Myprintf "+frag, pos, why)
+						} else {
+							r.Bad("R13.6", owner, "Myprintf "+frag, pos, "the operand is printed between quote characters as it is: a quote inside it ends the literal early, the re-serialised statement means something else or no longer parses")
+						}
+					}
+				case *ast.BinaryExpr:
+					// "'" + string(token bytes) + "'" in a parser action
+					if x.Op != token.ADD || fd.Name.Name != "Parse" {
+						return true
+					}
+					isQuote := func(e ast.Expr) bool {
+						tv, ok := pk.TypesInfo.Types[e]
+						if !ok || tv.Value == nil || tv.Value.Kind() != constant.String {
+							return false
+						}
+						v := constant.StringVal(tv.Value)
+						return strings.HasSuffix(v, "'") || strings.HasSuffix(v, "\"")
+					}
+					isTokenText := func(e ast.Expr) bool {
+						c, ok := ast.Unparen(e).(*ast.CallExpr)
+						if !ok || len(c.Args) != 1 {
+							return false
+						}
+						if tv, ok := pk.TypesInfo.Types[c.Fun]; !ok || !tv.IsType() {
+							return false
+						}
+						s, ok := c.Args[0].(*ast.SelectorExpr)
+						return ok && s.Sel.Name == "bytes"
+					}
+					if isQuote(x.X) && isTokenText(x.Y) {
+						n++
+						line := pk.Fset.Position(x.Pos())
+						prod := yaccProductionAt(line.Filename, line.Line)
+						if why, ok := r136ConfirmedConcat[prod]; ok {
+							r.Confirmed("R13.6", "parser action of "+prod, "quote + string(token bytes)", p.Pos(x.Pos()), why)
+						} else {
+							r.Bad("R13.6", "parser action of "+prod, "quote + string(token bytes)", p.Pos(x.Pos()), "a parser action builds quoted text by wrapping the raw bytes of a token in quote characters: a quote inside the token ends the literal early when the statement is printed")
+						}
+					}
+				}
+				return true
+			})
+		}
+	}
+	if n < 3 {
+		r.Bad("R13.6", "sqlparser", "quoted verbs", "-", fmt.Sprintf("%d quote-wrapped verbs / concatenations found, at least 3 confirmed by reading (X'..', B'..', E'..')", n))
+	}
+}
+
+// yaccProductionAt: the left-hand side of the grammar production whose action contains the given line (the position
+// comes from the //line directives of the generated parser, so file is the .y grammar).
+func yaccProductionAt(file string, line int) string {
+	data, err := os.ReadFile(file)
+	if err != nil {
+		return "?"
+	}
+	lines := strings.Split(string(data), "\n")
+	for i := line - 1; i >= 0 && i < len(lines); i-- {
+		l := strings.TrimSpace(lines[i])
+		if strings.HasSuffix(l, ":") && !strings.ContainsAny(l, " {}$") {
+			return strings.TrimSuffix(l, ":")
+		}
+	}
+	return "?"
+}
+
+func init() {
+	mut("C13", "SHOW ... LIKE pattern printed between quotes as it is (original defect)", "sqlparser/ast_methods.go", "		buf.Myprintf(\"like %v\", NewStrVal([]byte(node.Like)))", "		buf.Myprintf(\"like '%s'\", node.Like)", "R13.6", "ShowFilter")
+	mut("C13", "PREPARE ... FROM prints the inner statement between quotes as it is (original defect)", "sqlparser/ast_methods.go", "			buf.Myprintf(\"prepare %v from %v\", node.PreparedStatementName, NewStrVal([]byte(query)))", "			_ = query\n			buf.Myprintf(\"prepare %v from '%v'\", node.PreparedStatementName, node.PreparedStatementQuery)", "R13.6", "Prepare")
+	mut("C13", "group_concat separator built by wrapping the token in quotes (original defect)", "sqlparser/sql.go", "			yyVAL.str = \" separator \" + String(NewStrVal(yyDollar[2].bytes))", "			yyVAL.str = \" separator '\" + string(yyDollar[2].bytes) + \"'\"", "R13.6", "separator_opt")
 }
